@@ -116,7 +116,8 @@ theorem fk_evalCheck (cfg : Cfg) (e : Node) (p : Option Pos) : FK (evalCheck cfg
   ⟨tr_evalCheck cfg e p, fun s _ => Or.inl (grows_evalCheck cfg e p s)⟩
 
 theorem fk_recordPattern (cfg : Cfg) (sy : Sym) (e : Node) : FK (recordPattern cfg sy e) :=
-  FK.of_frames_eq (tr_recordPattern cfg sy e) (fun s => by unfold recordPattern; simp only; split <;> rfl)
+  FK.of_frames_eq (tr_recordPattern cfg sy e) (fun s => by
+    unfold recordPattern; simp only; split <;> first | rfl | (split <;> rfl))
 
 theorem fk_id : FK (fun s => s) := FK.of_frames_eq Tr.id (fun _ => rfl)
 theorem fk_id' : FK (_root_.id : St → St) := FK.of_frames_eq Tr.id' (fun _ => rfl)
